@@ -205,7 +205,7 @@ for sz in ['e8', 'z0', 'e3', 'e16']:
     add('k1_handles', 'iter_' + sz, 'iter_h::<%s>(false)' % TY[sz], props=['C14', 'C13'], tier=tier_for(sz, {'e8', 'z0'}), cost=80 if sz in SLOW else 10, macro='p')
 add('k1_handles', 'iter_mut_e8', 'iter_h::<E8>(true)', props=['C14', 'C13'], tier='q', cost=10, macro='p')
 add('k1_handles', 'iter_mut_e12', 'iter_h::<E12>(true)', props=['C14'], tier='t', cost=80, macro='p')
-add('k1_handles', 'drain_iter_e8', 'range_iter_h::<E8>(false, false)', props=['C14', 'C02', 'C03'], tier='q', cost=15)
+add('k1_handles', 'drain_iter_e8', 'range_iter_h::<E8>(false, false)', props=['C14', 'C02', 'C03', 'C13'], tier='q', cost=15)
 add('k1_handles', 'splice_iter_e8', 'range_iter_h::<E8>(false, true)', props=['C14', 'C02'], tier='q', cost=15)
 add('k1_handles', 'drain_iter_typed_e8', 'range_iter_h::<D8>(true, false)', props=['C14', 'C02'], tier='q', cost=15)
 BNTH = 'n <= 2 skipped elements (core default Iterator::nth / nth_back loop over next())'
